@@ -14,15 +14,23 @@ import (
 //   - overwrite mappings with more than one meta page (> 72 entries)
 //   - files grown far past the initially mapped 64KiB
 func runShapeCase(c *core.Case) *core.Result {
+	return runShapeCaseFor(c, Monitors{Property: "C10", ReopenID: true, Content: true, Partition: true, Coverage: true}, true)
+}
+
+// runShapeCaseFor runs the shape generators under the monitors of another property.
+func runShapeCaseFor(c *core.Case, mon Monitors, withOverflowShape bool) *core.Result {
 	res := &core.Result{}
 	r := c.R
 	cfg := Config{PageSize: 1024, DiskCap: 8 << 20, InitMetaArea: []uint32{0, 8, 64}[r.Intn(3)], SyncMode: r.Intn(3)}
 	if r.Chance(1, 3) {
 		cfg.MaxPages = 2048
 	}
-	w := NewWorld(cfg, Monitors{Property: "C10", ReopenID: true, Content: true, Partition: true, Coverage: true}, r, res)
+	w := NewWorld(cfg, mon, r, res)
 	w.TraceOn = c.Verbose
 	shape := r.Intn(5)
+	if !withOverflowShape {
+		shape = r.Intn(4)
+	}
 	names := []string{"fragmented-freelist", "big-regions", "large-wal-map", "mixed", "full-file-overflow-area"}
 	if shape == 4 {
 		return runOverflowShape(c, res, names[shape])
